@@ -251,7 +251,10 @@ def read_range_input(specification: str) -> List[float]:
         step = 0.005
         if len(parts) == 3:
             step = float(parts[2])
-        values = np.arange(min_value, max_value + step, step).tolist()
+        n_steps = int(np.floor((max_value - min_value) / step + 1e-9))
+        values = [
+            min(min_value + i * step, max_value) for i in range(n_steps + 1)
+        ]
     elif ',' in specification:
         values = [float(s) for s in specification.split(',')]
     else:
@@ -468,7 +471,10 @@ def generate_input(
         json_dict = {"comments": "",
                      "ranges": ranges_dict}
 
-        filename = os.path.join(input_dir, f'{label}.json')
+        if len(bias_ratios) == 1:
+            filename = os.path.join(input_dir, f'{label}.json')
+        else:
+            filename = os.path.join(input_dir, f'{label}_bias_{eta}.json')
 
         with open(filename, 'w') as json_file:
             json.dump(json_dict, json_file, indent=4)
